@@ -350,7 +350,13 @@ func (d *Decoder) scan(data []byte, atEOF bool) (advance int, token []byte, err 
 	}
 
 	// Look for new blocks
-	switch l := startsBlockQuote(data); {
+	l := startsBlockQuote(data)
+	if l > 0 && !atEOF && !utf8.FullRune(data[l:]) {
+		// The whitespace after the quote marker may continue in data that has not
+		// been read yet: wait for it so that tokens do not depend on read sizes.
+		return 0, nil, nil
+	}
+	switch {
 	case l > 0 && !d.quoteStarted:
 		// If we haven't yet consumed our block quote start token, do so.
 		d.mask |= BlockQuote | BlockQuoteStart
